@@ -43,7 +43,7 @@ def Balanced (st : FState) : Prop := openCount st.events = announced st.stack
 
 theorem finish_events (st : FState) (k : CallKind) (c t : Addr) (gs : Nat) (tn dbg top : Bool) (sg : Nat)
     (r : Option Bytes) (g : Nat) (e : Option String) (w en sn : List Effect) (ran : Bool) :
-    (finish st k c t gs tn dbg top sg r g e w en sn ran).events = st.events ++ (if dbg then closeDebug true top r (sg - g) e else []) := rfl
+    (finish st k c t gs tn dbg top sg r g e w en sn ran).events = st.events ++ (if dbg then closeDebug true top r (subU64 sg g) e else []) := rfl
 
 theorem c18_enterCall_balanced (st : FState) (caller to : Addr) (value : Nat) (input : Bytes) (gas : Nat) (f : EnterFacts)
     (h : Balanced st) : Balanced (enterCall st caller to value input gas f) := by
